@@ -8,7 +8,7 @@ from .c05 import env_of
 
 PLAN = {
     "quick": {"shards": 8, "cases": 1500, "min_nontrivial": 5000, "budget_s": 300},
-    "thorough": {"shards": 16, "cases": 4000, "min_nontrivial": 30000, "budget_s": 1500},
+    "thorough": {"shards": 16, "cases": 20000, "min_nontrivial": 112000, "budget_s": 1500},
 }
 RULE = ("schemas with required fields (with and without defaults), schema-level and field-level validators (pass / fail "
         "/ raise a non-ValueError, all logging their invocations), feature flags at depth 0-3 and lists of schemas; a "
